@@ -1,0 +1,104 @@
+//! Seams for deterministic simulation (only compiled with the `verif-hooks` feature).
+//!
+//! Nothing in here changes behaviour unless a simulator installs [`Hooks`]: without them
+//! lock admission and yield points are no-ops and [`SimHashState`] seeds itself from
+//! `std`'s `RandomState`, exactly like the `HashMap` it replaces.
+
+use std::hash::{BuildHasher, Hasher};
+use std::sync::OnceLock;
+
+/// Callbacks a simulator installs once per process.
+#[derive(Clone, Copy, Debug)]
+pub struct Hooks {
+    /// Called before a tracked lock is taken; may block the calling thread until admitted.
+    pub lock_acquire: fn(id: usize, site: &'static str),
+    /// Called after a tracked lock was released.
+    pub lock_release: fn(id: usize),
+    /// Called at points where a thread may be descheduled.
+    pub yield_point: fn(site: &'static str),
+    /// Seed for the next hash map built; `None` falls back to a random seed.
+    pub next_hash_seed: fn() -> Option<u64>,
+}
+
+static HOOKS: OnceLock<Hooks> = OnceLock::new();
+
+/// Install the simulator's callbacks. Returns `false` if hooks were already installed.
+pub fn install(hooks: Hooks) -> bool {
+    HOOKS.set(hooks).is_ok()
+}
+
+/// A point at which the simulator may switch to another thread.
+#[inline]
+pub fn yield_point(site: &'static str) {
+    if let Some(h) = HOOKS.get() {
+        (h.yield_point)(site);
+    }
+}
+
+/// Admission guard for a lock the simulator wants to own the scheduling of.
+///
+/// Declare it *before* taking the real lock so it is dropped after the real guard.
+#[derive(Debug)]
+pub struct LockScope {
+    id: usize,
+    active: bool,
+}
+
+/// Ask the simulator for admission to the lock identified by `id`.
+#[inline]
+pub fn lock_scope(id: usize, site: &'static str) -> LockScope {
+    match HOOKS.get() {
+        Some(h) => {
+            (h.lock_acquire)(id, site);
+            LockScope { id, active: true }
+        }
+        None => LockScope { id, active: false },
+    }
+}
+
+impl Drop for LockScope {
+    fn drop(&mut self) {
+        if self.active {
+            if let Some(h) = HOOKS.get() {
+                (h.lock_release)(self.id);
+            }
+        }
+    }
+}
+
+/// `BuildHasher` whose per-instance seed comes from the simulator.
+#[derive(Clone, Debug)]
+pub struct SimHashState {
+    seed: u64,
+}
+
+impl SimHashState {
+    /// The seed this instance hashes with.
+    pub fn seed(&self) -> u64 {
+        self.seed
+    }
+}
+
+impl Default for SimHashState {
+    fn default() -> Self {
+        let seed = HOOKS
+            .get()
+            .and_then(|h| (h.next_hash_seed)())
+            .unwrap_or_else(|| {
+                std::collections::hash_map::RandomState::new()
+                    .build_hasher()
+                    .finish()
+            });
+        SimHashState { seed }
+    }
+}
+
+impl BuildHasher for SimHashState {
+    type Hasher = std::collections::hash_map::DefaultHasher;
+
+    fn build_hasher(&self) -> Self::Hasher {
+        let mut h = std::collections::hash_map::DefaultHasher::new();
+        h.write_u64(self.seed);
+        h
+    }
+}
